@@ -125,6 +125,7 @@ func initEndlessOpenRange() {
 	RegisterNativeClass("Std::EndlessOpenRange", "value.EndlessOpenRangeClass")
 
 	EndlessOpenRangeIteratorClass = NewClass()
+	EndlessOpenRangeIteratorClass.IncludeMixin(ResettableIteratorBaseMixin)
 	EndlessOpenRangeClass.AddConstantString("Iterator", Ref(EndlessOpenRangeIteratorClass))
 	RegisterNativeClass("Std::EndlessOpenRange::Iterator", "value.EndlessOpenRangeIteratorClass")
 }
